@@ -61,7 +61,7 @@ def run_impl(case):
         mux = csr.Multiplexer(mm, shadow_overlaps=ov)
         top = simutil.wrap(mux)
         from amaranth.sim import Simulator
-        sim = Simulator(top)
+        sim = simutil.simulator(top, case)
     except ValueError:
         # descriptive refusal of an unbalanceable layout: the model must refuse too
         stats["refused_layouts"] = 1
